@@ -4,7 +4,7 @@ CLAIMS = {
  'deccmp*': 'XMLBigDecimal constructor / setDecimalValue / compareValues on every pair of accepted literals of <= N units: the result is the order of the two rational VALUES (equal values compare equal whatever their spelling, antisymmetric), also after re-assigning the left operand',
  'wsfacet': 'XMLString::replaceWS/collapseWS/removeWS/isWSReplaced/isWSCollapsed on every string of <= N units: exact whiteSpace-facet normalisation, predicates exact on fixed points, idempotent, memory safe',
  'dtparse_*': 'XMLDateTime::parseDate / parseYearMonth / parseYear / parseMonthDay / parseDay / parseMonth on every zero-terminated buffer of <= N units (arbitrary units behind the terminator): memory safe; for non-negative years accepted iff in the lexical space of the type with valid month/day/time zone',
- 'durcmp': 'XMLDateTime::compare(d1, d2, strict) (addDuration / compareOrder / compareResult) on every pair of non-negative durations in field form (years <= 1, months <= 14, days <= MAXD, hours <= 30, minutes/seconds <= 70): the verdict is the partial order of XML Schema Part 2 3.2.6.2 over the four reference dateTimes (less / equal / greater when all four agree, indeterminate when they disagree)',
+ 'durcmp': 'XMLDateTime::compare(d1, d2, strict) (addDuration / compareOrder / compareResult) on every pair of non-negative durations in field form (quick: months <= 3, days <= 63, other fields 0; thorough: months <= 5, days <= 63, hours <= 24): the verdict is the partial order of XML Schema Part 2 3.2.6.2 over the four reference dateTimes (less / equal / greater when all four agree, indeterminate when they disagree)',
  'dt_normalize': 'XMLDateTime::normalize for every valid timezoned instant: fields equal the loop-free reference (same instant in UTC), in range, marked UTC',
  'hexbin': 'HexBin::isArrayByteHex/getDataLength/decodeToXMLByte/getCanonicalRepresentation on every string of <= N units: accepted iff XSD lexical space, exact decode, canonical = upper case, idempotent, memory safe',
  'base64': 'Base64::decodeToXMLByte/getDataLength/getCanonicalRepresentation/encode (Conf_Schema) on every string of <= N units: accepted iff XSD E2-54 grammar, exact decode, encode(decode) canonical, memory safe',
